@@ -660,7 +660,7 @@ _cg_del_shift_item_known_hash(cgns_hashmap_object* op, const char* key, map_ssiz
     ep->me_value = -1;
     /* Shift down upper indices */
     ep = MAP_ENTRIES(op->ma_keys);
-    for (map_ssize_t i = 0; i < op->ma_keys->map_usable; i++) {
+    for (map_ssize_t i = 0; i < op->ma_keys->map_nentries; i++) {
         if ( ep->me_value > old_value ) {
             ep->me_value--;
         }
